@@ -39,10 +39,14 @@ func runC14(c *core.Ctx) {
 	c.Rule("R4", "conversion tables agree and fail closed", 4)
 	c.Rule("R5", "io.Writer implementations do not retain p", 3)
 	c.Rule("R6", "wrappers keep one write sink (shared with C17)", 4)
-	c.Rule("R7", "a streamed chunk handed to the write queue is not recycled or reused by the producer (shared with C10-R1/R4)", 1)
+	c.Rule("R7", "a streamed chunk handed to the write queue is not recycled or reused by the producer, and the sender's scratch lists do not overlap (shared with C10-R1/R4/R6)", 1)
 	importObligations(c, runC10, "R7", func(o *core.Obligation) bool {
-		return (o.Rule == "R1" || o.Rule == "R4") && (strings.Contains(o.Key, "no-use-after-transfer") || strings.Contains(o.Key, "not-after-handoff") || strings.Contains(o.Key, "transfers-fresh-buffer"))
+		return o.Rule == "R6" || (o.Rule == "R1" || o.Rule == "R4") && (strings.Contains(o.Key, "no-use-after-transfer") || strings.Contains(o.Key, "not-after-handoff") || strings.Contains(o.Key, "transfers-fresh-buffer"))
 	})
+
+	// "checked" means checked by a helper that raises for every error
+	c.Rule("R8", "the check helpers raise for every non-nil error (shared with C07-R4)", 2)
+	importObligations(c, runC07, "R8", func(o *core.Obligation) bool { return strings.Contains(o.Key, "/raises-on-every-error") })
 
 	hh, arms, deflt := headArms(p)
 	if hh == nil {
